@@ -83,6 +83,9 @@ type Chan struct {
 
 type Poison struct{ Why string }
 
+// NativeFunc is a function value implemented by the interpreter itself.
+type NativeFunc func(ex *Exec, args []Value) Value
+
 // DataPtr is the result of unsafe.SliceData / unsafe.StringData: it can only be turned back
 // into a slice or string (unsafe.Slice / unsafe.String).
 type DataPtr struct {
